@@ -117,14 +117,32 @@ class Ctx(object):
 def session_ops(kind):
     import eqsig
 
+    _ro = [0]
+
+    def _handed_over(c, k, call):
+        # every other time the caller's ndarray is handed over READ-ONLY (a frombuffer / memory-mapped record, or a flag the
+        # caller switches back on afterwards): the object owns a copy all the same
+        arr = c.callers[k]
+        _ro[0] += 1
+        ro = isinstance(arr, np.ndarray) and _ro[0] % 2 == 0
+        if ro:
+            arr.setflags(write=False)
+        try:
+            call(arr)
+        finally:
+            if ro:
+                arr.setflags(write=True)
+
     def construct(k):
         def f(c):
-            c.obj = c.cls(c.callers[k], DT)
+            def mk(arr):
+                c.obj = c.cls(arr, DT)
+            _handed_over(c, k, mk)
         return f
 
     def reset(k):
         def f(c):
-            c.obj.reset_values(c.callers[k])
+            _handed_over(c, k, lambda arr: c.obj.reset_values(arr))
         return f
 
     def caller_write(k):
@@ -408,6 +426,10 @@ def make_env(dtype, container, seed, shape="generic"):
         y = np.round(y * 3).astype(np.int64)
 
     def wrap(a):
+        if container == "readonly":
+            a = np.array(a)
+            a.setflags(write=False)
+            return a
         return a.tolist() if container == "list" else a
     asig = eqsig.AccSignal(x, DT, response_times=np.array([0.1, 0.4, 1.0]))
     asig2 = eqsig.AccSignal(y, DT)
@@ -471,7 +493,7 @@ def shortened(a):
 def pure_events(rep, tier, seed):
     recs = []
     calls = pure_calls()
-    variants = [("float64", "ndarray"), ("int64", "ndarray"), ("float64", "list"), ("int64", "list")]
+    variants = [("float64", "ndarray"), ("int64", "ndarray"), ("float64", "list"), ("int64", "list"), ("float64", "readonly")]
     nraised = 0
     combos = [(d, c, "generic") for d, c in variants] + [(d, "ndarray", sh) for sh in SHAPES[1:] for d in ("float64", "int64")]
     for dtype, container, shape in combos:
@@ -482,7 +504,7 @@ def pure_events(rep, tier, seed):
             args = [env[a] for a in argn]
             pre = [digest(a) for a in args]
             raised = None
-            res1 = res2 = ""
+            res1 = res2 = res1h = ""
             with warnings.catch_warnings():
                 warnings.simplefilter("ignore")
                 try:
@@ -507,12 +529,14 @@ def pure_events(rep, tier, seed):
                         pass
                     r2 = fn(*args)
                     res2 = digest(r2)
+                    # what was handed out by the FIRST call belongs to the caller: the calls made since have not changed it
+                    res1h = digest(r1)
                 except Exception as ex:
                     raised = type(ex).__name__
                     nraised += 1
             post = [digest(a) for a in args]
             recs.append({"kind": "pure", "fn": name, "dtype": dtype, "container": container, "shape": shape, "pre": pre, "post": post,
-                         "res1": res1, "res2": res2, "raised": raised is not None, "exc": raised or ""})
+                         "res1": res1, "res2": res2, "res1h": res1h, "raised": raised is not None, "exc": raised or ""})
     rep.extra["pure_calls"] = {"functions": len(calls), "variants": len(combos), "events": len(recs), "raised": nraised}
     return recs
 
